@@ -272,8 +272,8 @@ def run_c08(tape, tier, res):
     res.sample = {"flags": flags, "ruleset": worlds.spec_summary(spec)}
     ref = RefRuleset(rdir, skip_brute=flags["skip_brute"], skip_case=flags["skip_case"])
     has_m_line = any(s == "M" for s, _ in ref.raw_base)
-    if flags["skip_brute"] and (not has_m_line or not ref.base):
-        res.rejected = "skip_brute_edge(C14)"
+    if flags["skip_brute"] and not ref.base:
+        res.rejected = "skip_brute_M_only"
         return
     U = reference_run(res, "C08", flags)
     if U is None:
